@@ -31,6 +31,7 @@ ASSUMPTIONS = [
     "comparison results are compared by truth value (the library may return bool or 0/1 floats)",
     "rescaling providers: no particular resampling convention is imposed (shape, monotonicity and value range of a ramp are checked)",
     "Gaussian provider: centre of mass within 0.51 px of (shape_px-1)/2 + shift/scale, isotropic Gaussian of the requested sigma about its own centre",
+    "added during the seeding waves: from_files with differing header scales, tolerance cases, center_by_mass, user functions with defaults, parameters given as numpy arrays and pipelines used repeatedly, sign of exact zeros compared",
 ]
 
 OPS = {"+": operator.add, "-": operator.sub, "*": operator.mul, "/": operator.truediv, "<": operator.lt, "<=": operator.le,
